@@ -68,6 +68,7 @@ def build_cases(z, tier, k_index):
     ins = by_key(F)
     cases = []
     notes = []
+    problems = z.problems = []
 
     def mk(opname, outs, terms_of_in, out_terms=None, tactic=tac0, extra_items=None, conj_in=False,
            out_subst=None, rhs_override=None):
@@ -170,7 +171,8 @@ def build_cases(z, tier, k_index):
             if len(new) == 1:
                 mk("action_new", by_key(res), [(1, {tkey(targets[0]): new[0]}, "_actn")])
             else:
-                notes.append("action(F) did not introduce exactly one new coefficient")
+                problems.append({"what": "action(F) without a coefficient must introduce exactly one new coefficient",
+                                 "form": str(F), "result": str(res), "new_coefficients": [str(c) for c in new]})
     # --- adjoint ----------------------------------------------------------------------------
     Fb = z.bil if z.bil is not None else F
     ins_F = ins
@@ -212,6 +214,16 @@ def build_cases(z, tier, k_index):
                         cases.append(L.LinCase(f"{z.name}_{tag}_as_coded_k{kid}", items, lhs, rhs, tactic="closeC",
                                                note={"form": z.name, "op": tag + " as coded (number and part swapped)",
                                                      "key": kk[1:]}))
+        if not has_parts and len(Fb.arguments()) == 2:
+            v_, u_ = Fb.arguments()
+            ru = C.Argument(u_.ufl_function_space(), 2)
+            rv = C.Argument(v_.ufl_function_space(), 5)
+            for tag, fn in (("adjoint_explicit", ufl.adjoint), ("cf_adjoint_explicit", ft.compute_form_adjoint)):
+                if tag.startswith("cf_") and not raw:
+                    continue
+                res = fn(Fb, (ru, rv))
+                mk(tag, by_key(res), [(1, {tkey(v_): rv, tkey(u_): ru}, "_re")], conj_in=True,
+                   tactic=tac0 if z.deriv else "closeC")
         ins = ins_F
     # --- energy norm ------------------------------------------------------------------------
     if z.energy and Us and Vs and not has_parts:
@@ -222,6 +234,19 @@ def build_cases(z, tier, k_index):
                 continue
             res = fn(Fb, z.f)
             mk(tag, by_key(res), [(1, sub, "_ff")])
+            # default coefficient: ONE fresh coefficient w must appear and the result is F[v,u := w]
+            tagn = tag + "_new"
+            resn = ufl.energy_norm(Fb) if tag == "energy" else ft.compute_energy_norm(Fb, None)
+            newc = [c for c in resn.coefficients() if c not in Fb.coefficients()]
+            if len(newc) == 1 and not resn.arguments():
+                subn = {tkey(Vs[0]): newc[0], tkey(Us[0]): newc[0]}
+                mk(tagn, by_key(resn), [(1, subn, "_ffn")])
+            else:
+                problems.append({"what": f"{tagn}: energy_norm(a) without a coefficient must equal a(w, w) for ONE "
+                                         "new coefficient w and have no arguments",
+                                 "form": str(Fb), "result": str(resn),
+                                 "new_coefficients": [str(c) for c in newc],
+                                 "remaining_arguments": [str(a_) for a_ in resn.arguments()]})
         ins = ins_F
     return cases, notes
 
@@ -247,6 +272,9 @@ def main(run):
         run.violation({"broken": "an anchored function raised on a form of the zoo (it does not on the "
                                  "pinned tree)", "form": z.name, "F": str(z.form), "traceback": tb[-3000:],
                        "reproduce": "bin/check C16"}, True)
+    for z in zs:
+        for pr in getattr(z, "problems", []):
+            run.violation(dict(pr, zoo_form=z.name, reproduce="bin/check C16"), True)
     failing = coqgen.emit_and_check(run, "C16", cases, extra_header=L.EXTRA_HEADER, timeout=600)
     hand = vlib.coqc("Props/C16_algebra.v")
     run.add_coq_result(hand)
